@@ -979,9 +979,10 @@ class Vector():
 	def __invert__(self):
 		# For boolean vectors, use logical NOT instead of bitwise NOT
 		if self._dtype and self._dtype.kind is bool:
+			# like every comparison / logical operator: a non-nullable mask, None counts as False
 			return Vector(
-				tuple(not x for x in self),
-				dtype=self._dtype,
+				tuple(False if x is None else (not x) for x in self),
+				dtype=DataType(bool, nullable=False),
 				name=self._name,
 				as_row=self._display_as_row
 			)
